@@ -65,20 +65,16 @@ def r1(ctx):
             if r is None:
                 ctx.emit('C10-R1', False, relpath, f, f'{role} index `{src(expr)}` is not a recognised rounding form', key=f'{role}-index', undecided=True)
                 continue
-            q = _quot(r.q, None)
-            okq = q is not None and q[0] == want_q and q[1] == Lin({s: 1})
+            okq = r.den is not None and r.num == want_q and r.den == Lin({s: 1})
             lo, loc, hi, hic = want
-            okb = (r.lo, r.lo_closed, r.hi, r.hi_closed) == (Fraction(lo), loc, Fraction(hi), hic)
-            # a weaker bound that still implies the requirement is fine: r within want
-            within = (r.lo > lo or (r.lo == lo and (not r.lo_closed or loc))) and (r.hi < hi or (r.hi == hi and (not r.hi_closed or hic)))
-            ok = okq and (okb or within)
+            ok = okq and r.within(lo, loc, hi, hic)
             witness = None
             if okq and not ok:
                 # concrete abstract witness: pick q on the offending boundary
                 witness = {'case': f'(numerator)/{s} integral' if role == 'first' else f'{p}/{s} integral or negative',
                            'value - quotient in': _interval_str(r), 'required': '(0,1]' if role == 'first' else '(-1,0]'}
             ctx.emit('C10-R1', ok, relpath, f,
-                     f'{role} index `{src(expr)}`: value - ({src(r.q)}) in {_interval_str(r)}; required ' +
+                     f'{role} index `{src(expr)}`: value - {r.q} in {_interval_str(r)}; required ' +
                      ('(0,1] w.r.t. (p-b)/s' if role == 'first' else '(-1,0] w.r.t. p/s') + ('' if okq else '; quotient is not the required one'),
                      key=f'{role}-index', witness=witness,
                      what=f'{name} ({relpath.split("/")[-1]}): {role} window index `{src(expr)}` admits a window that does not contain the coordinate')
@@ -105,9 +101,8 @@ def r2(ctx):
             if r is None:
                 sig.append(None)
             else:
-                q = _quot(r.q, None)
                 ren = {p: 'p', b: 'b', s: 's'}
-                qq = tuple((tuple(sorted((ren.get(k, k), v) for k, v in l.coef.items())), l.const) for l in q) if q else None
+                qq = tuple((tuple(sorted((ren.get(k, k), v) for k, v in l.coef.items())), l.const) for l in (r.num, r.den)) if r.den is not None else None
                 sig.append((qq, r.lo, r.lo_closed, r.hi, r.hi_closed))
         sigs.append(sig)
     ok = sigs[0] == sigs[1]
@@ -160,11 +155,15 @@ def r4(ctx):
         if not (isinstance(l.target, ast.Tuple) and len(l.target.elts) == 2):
             raise AnalysisError('bin loop target is not (start, end)')
         st, en = [e.id for e in l.target.elts]
-        ifs = [s for s in l.body if isinstance(s, ast.If) and any(isinstance(x, ast.Continue) for x in s.body)]
+        ifs = [s for s in l.body if isinstance(s, ast.If) and {st, en} & names_in(s.test) and not s.orelse
+               and all(isinstance(x, (ast.Continue, ast.Break, ast.Return, ast.Pass)) for x in s.body)]
         if len(ifs) != 1:
             ctx.emit('C10-R4', False, COUNTTABLE, l, 'no single out-of-bounds rejection found in the bin loop', key='bounds-predicate', undecided=True)
             continue
         test = ifs[0].test
+        eff = type(ifs[0].body[-1]).__name__
+        ctx.emit('C10-R4', eff == 'Continue', COUNTTABLE, ifs[0], f'a rejected window is skipped with `{eff.lower()}`' +
+                 ('' if eff == 'Continue' else ': the remaining (in-bounds) windows of the same read are discarded as well'), key='bounds-effect')
 
         def atom(n):
             t = src(n)
